@@ -90,6 +90,21 @@ def gen_replacement_text(tape, kind, label):
     return T.gen_id(tape, label)
 
 
+_ASSIGNABLE = {}
+
+
+def assignable_fields(fmt):
+    """fields whose DECLARED type in the entry class is int, float or str: exactly what replacement_array builds, so an
+    attribute assignment (which converts nothing, in either mode) stores a value of the declared type"""
+    if fmt.name not in _ASSIGNABLE:
+        core.bnp()
+        import dataclasses
+        import bionumpy.datatypes as dt
+        cls = getattr(dt, fmt.dataclass)
+        _ASSIGNABLE[fmt.name] = {f.name for f in dataclasses.fields(cls) if f.type in (int, float, str)}
+    return _ASSIGNABLE[fmt.name]
+
+
 def gen_program(ctx, fd, n_chunks_rows, max_ops, allow_replace=True, allow_write=True, formats_no_replace=(),
                 allow_item=True):
     """ops over the variables; n_chunks_rows = rows per initial chunk (model side knows the chunking)"""
@@ -102,8 +117,9 @@ def gen_program(ctx, fd, n_chunks_rows, max_ops, allow_replace=True, allow_write
         # a replaced sequence of another length would make the record itself inconsistent with its quality line
         repl_fields = [(f, k) for f, k in repl_fields if f != "sequence"]
     while len(ops) < max_ops and tape.more("op.more", 4, 5):
+        can_repl = allow_replace and repl_fields and fmt.name not in formats_no_replace
         w = [(4, "sel"), (2, "get"), (2 if allow_write else 0, "write"), (2, "concat"),
-             (2 if (allow_replace and repl_fields and fmt.name not in formats_no_replace) else 0, "replace"),
+             (2 if can_repl else 0, "replace"), (1 if can_repl else 0, "setattr"),
              (1, "len"), (1, "tolist"), (1 if allow_item else 0, "item")]
         op = tape.weighted(w, "op")
         src = tape.draw(len(lens), "op.src")
@@ -121,6 +137,17 @@ def gen_program(ctx, fd, n_chunks_rows, max_ops, allow_replace=True, allow_write
             texts = [gen_replacement_text(tape, kind, "rv") for _ in range(n)]
             ops.append({"op": "replace", "src": src, "field": fname, "texts": texts})
             lens.append(n)
+        elif op == "setattr":
+            # explicit attribute assignment `v.field = array`: changes v (that is its purpose) and nothing else
+            # (assignment does no type conversion in either mode: only fields whose declared type is what
+            # replacement_array builds — numbers, and text for str-typed columns — are assigned)
+            cands = [(f, k) for f, k in repl_fields if f in assignable_fields(fmt)]
+            if not cands:
+                ops.append({"op": "len", "src": src})
+                continue
+            fname, kind = cands[tape.draw(len(cands), "op.field")]
+            texts = [gen_replacement_text(tape, kind, "rv") for _ in range(n)]
+            ops.append({"op": "setattr", "src": src, "field": fname, "texts": texts})
         elif op == "get":
             fname = fmt.fields[tape.draw(len(fmt.fields), "op.field")][0]
             ops.append({"op": "get", "src": src, "field": fname})
@@ -134,8 +161,10 @@ def gen_program(ctx, fd, n_chunks_rows, max_ops, allow_replace=True, allow_write
     return ops
 
 
-def model_vars(fd_records_per_chunk, ops):
-    """-> list of MVar for every variable created by the program"""
+def model_vars(fd_records_per_chunk, ops, upto=None):
+    """-> list of MVar for every variable that exists after ops[:upto] (all ops when upto is None)"""
+    if upto is not None:
+        ops = ops[:upto]
     mv = []
     pos = 0
     for ci, n in enumerate(fd_records_per_chunk):
@@ -157,6 +186,14 @@ def model_vars(fd_records_per_chunk, ops):
                 o[op["field"]] = t
                 rows.append((rec, o))
             mv.append(MVar(rows, False, None, s.replaced_cols | {op["field"]}))
+        elif op["op"] == "setattr":
+            s = mv[op["src"]]
+            rows = []
+            for (rec, over), t in zip(s.rows, op["texts"]):
+                o = dict(over)
+                o[op["field"]] = t
+                rows.append((rec, o))
+            mv[op["src"]] = MVar(rows, False, None, s.replaced_cols | {op["field"]})   # in place: only this variable
     return mv
 
 
@@ -275,6 +312,10 @@ class World:
         src = self.vars[op["src"]]
         if raised(src):
             return src
+        if k == "setattr":
+            def f():
+                setattr(src, op["field"], replacement_array(fmt, op["field"], op["texts"]))
+            return call(f)
         if k == "get":
             return call(lambda: plain(getattr(src, op["field"])))
         if k == "len":
